@@ -19,7 +19,7 @@ type C09Cli struct {
 	Sel     string `json:"sel"`    // encryption selector of a real client: "", none, tls
 	Raw     bool   `json:"raw"`    // scripted cooperative raw client instead of a real ClientChannel
 	Choice  int    `json:"choice"` // raw client: which offered options it picks
-	Bad     int    `json:"bad"`    // raw client: 0 picks from the offer, 1 not offered, 2 empty, 3 unknown
+	Bad     int    `json:"bad"`    // raw client: 0 picks from the offer, 1 not offered, 2 empty, 3 unknown, 4 picks tls and pipelines its credentials in cleartext behind the choice (same write), then upgrades and stays silent
 	StartMs int    `json:"start_ms"`
 }
 
@@ -39,7 +39,7 @@ func genC09(t *simrt.Tape, tier string) interface{} {
 	for i := 1 + t.Draw(4); i > 0; i-- {
 		c := C09Cli{L: t.Draw(len(p.Conf.Listeners)), Sel: []string{"", "none", "tls"}[t.Draw(3)], Raw: t.Draw(3) == 0, Choice: t.Draw(4), StartMs: []int{0, 0, 1, 50, 500}[t.Draw(5)]}
 		if c.Raw && t.Draw(3) == 0 {
-			c.Bad = 1 + t.Draw(3)
+			c.Bad = 1 + t.Draw(4)
 		}
 		k := p.Conf.Listeners[c.L]
 		if k == "ws" || k == "wss" || k == "inproc" {
@@ -179,6 +179,43 @@ func runC09(w *World, pi interface{}) {
 				r.peer = peer
 				if peer.Link != nil {
 					links[i] = peer.Link
+				}
+				if c.Bad == 4 {
+					// cleartext credentials pipelined behind the choice of TLS, in the same write
+					ScriptRun(w, peer, []Step{{Op: "auto"}})
+					lf := peer.LastSessionFrame()
+					if kind != "tcptls" || fstr(lf, "state") != "negotiating" || !containsS(fstrs(lf, "encryptionOptions"), "tls") {
+						// nothing to upgrade on this connection: behave like a cooperative client
+						for _, st := range []Step{{Op: "auto", Choice: c.Choice}, {Op: "auto"}, {Op: "auto", Choice: c.Choice}, {Op: "auto"}} {
+							ScriptRun(w, peer, []Step{st})
+						}
+						r.established = fstr(peer.LastSessionFrame(), "state") == "established"
+						return
+					}
+					sid := fstr(lf, "id")
+					f1 := canonJSON(map[string]interface{}{"state": "negotiating", "id": sid, "compression": "none", "encryption": "tls"})
+					f2 := canonJSON(map[string]interface{}{"state": "authenticating", "id": sid, "from": identityFor(0, "plain"), "scheme": "plain", "authentication": authObject("plain", 0)})
+					n0 := peer.NFrames()
+					peer.SendBytes([]byte(f1+"\n"+f2+"\n"), "tls choice + cleartext credentials in one write")
+					w.Count("pipelined-cleartext-credentials")
+					peer.AwaitFrame(n0, 10*time.Second)
+					if peer.NeedsTLS() {
+						if err := peer.UpgradeTLS(false); err != nil {
+							w.Count("pipelined-upgrade-refused")
+						} else {
+							w.Count("pipelined-upgrade-completed")
+						}
+					}
+					// nothing is sent under TLS: whatever the server does now rests on the cleartext bytes
+					peer.RemoteClosed().WaitFor(20 * time.Second)
+					for _, e := range h.Of(i, "s-frame") {
+						if st := fstr(e.Frame, "state"); st == "established" {
+							w.Violate("C09.cleartext-credentials-accepted-after-tls-confirmation", fmt.Sprintf("pipelined transport=%s", kind),
+								"client %d chose TLS and pipelined its credentials in cleartext behind the choice; it sent nothing under TLS, yet the server established the session on those credentials\n%s", i, h.Dump(40))
+						}
+					}
+					r.established = false
+					return
 				}
 				steps := []Step{{Op: "auto"}, {Op: "auto", Choice: c.Choice}, {Op: "auto"}, {Op: "auto", Choice: c.Choice}, {Op: "auto"}}
 				if c.Bad > 0 {
@@ -358,8 +395,8 @@ func init() {
 		Run:    runC09,
 		MaxSim: 2 * time.Hour,
 		Rule: "plans = (one real server with 1-3 listeners of mixed kinds, configured encryption list from {[none,tls],[tls,none],[tls],[none]} and compression list from {[none],[none,gzip],[gzip,none]}; 1-4 clients dialling one after another: real ClientChannel with " +
-			"encryption selector default/none/tls, or scripted cooperative raw client picking offered options, or one that picks a not-offered / empty / unknown option; benign link faults with emphasis on fragmentation in both directions); " +
+			"encryption selector default/none/tls, or scripted cooperative raw client picking offered options, or one that picks a not-offered / empty / unknown option, or one that picks TLS and pipelines cleartext credentials behind its choice in the same write; benign link faults with emphasis on fragmentation in both directions); " +
 			"oracle per connection from the wire taps (tcp) or the scripted client's frames (ws, wss, in-process): offer = configured intersect supported, confirmation only of a pair from the offer, other choices failed, after a TLS confirmation only TLS records in either direction, " +
-			"and the confirmed upgrade completes under benign faults; non-trivial = server started; distinct = distinct (plan JSON, event-log hash)",
+			"the confirmed upgrade completes under benign faults, and nothing is established on credentials that travelled in cleartext behind a TLS choice; non-trivial = server started; distinct = distinct (plan JSON, event-log hash)",
 	})
 }
